@@ -216,3 +216,30 @@ Theorem C07_every_history_over_any_buffer : forall t n bk bv bh ops,
     render s' = Ok (Io.images m') /\
     exists cf, forall f, served_by_cache (empty_st bk bv bh) (m_st m') f (cf f).
 Proof. exact history_over_any_cache. Qed.
+
+(** ... and AS THE CALLS ARE REALLY MADE (Io_methods.v): every read and write through the method of
+    the buffered file the crate's VarFile forwards it to ([read_u8] .. [read_exact_maybeslice],
+    [write_u8] .. [write_zero], the partial [write] of std's write_all loop), every seek through any
+    SeekFrom arriving at the logged position.  The fine io-trace hook prints the method with every
+    read and write of the REAL trace; the runs count them and check [read_guard] / [write_guard]
+    (evidence `real_calls_by_method_of_the_buffered_file`). *)
+From Aby Require Import Io_methods.
+Theorem C07_every_history_over_any_buffer_as_really_called : forall t n bk bv bh ops,
+  1 <= n -> pow2 n -> Forall (op_wf t) ops -> sized (Store.create t n) ops ->
+  exists m' s' (cf : fid -> list call),
+    store_run (Store.create t n) ops = Ok (s', snd (spec_run ∅ ops)) /\
+    render s' = Ok (Io.images m') /\
+    forall f c fuel ops', backs c (Io.get_file (empty_st bk bv bh) f) ->
+      made_via_all (k_cs c) (flat_of (Io.get_file (empty_st bk bv bh) f)) (cf f) ops' ->
+      (xrun_fuel (k_cs c) (flat_of (Io.get_file (empty_st bk bv bh) f)) (map call_op (cf f)) <= fuel)%nat ->
+      exists c' outs',
+        crun fuel c ops' = Ok (c', outs') /\
+        map norm_out outs' = map norm_out (touts (flat_of (Io.get_file (empty_st bk bv bh) f)) (cf f)) /\
+        cache_invx c' /\ R c' (flat_of (Io.get_file (m_st m') f)) /\
+        exists c'', flush c' = Ok c'' /\ k_disk c'' = fb (Io.get_file (m_st m') f).
+Proof.
+  intros t n bk bv bh ops Hn Hp Hops Hsz.
+  destruct (history_in_domain t n bk bv bh ops Hn Hp Hops Hsz) as (m0 & m' & s' & _ & Hrun & _ & Hr & Hd).
+  destruct (in_domain_served_as_made _ _ Hd) as (cf & H).
+  exists m', s', cf. split; [exact Hrun|]. split; [exact Hr|exact H].
+Qed.
